@@ -80,6 +80,39 @@ pub fn u64_from_le_bytes_v(b: [u8; 8]) -> (r: u64) ensures r == from_le64(b@) { 
 #[verifier::external_body]
 pub fn u32_from_le_bytes_v(b: [u8; 4]) -> (r: u32) ensures r == from_le32(b@) { u32::from_le_bytes(b) }
 
+// D14: `x.leading_zeros()` on u64: vstd's axiom for u64::leading_zeros does not expose that the bit below the
+// leading zeros is set, so the call goes through a shim whose contract is spelled out here (assumed, T4; cross-checked
+// against the real u64::leading_zeros for all 2^64 inputs by a loop-free Kani harness).
+pub open spec fn bitlen(m: u64) -> nat decreases m { if m == 0 { 0 } else { 1 + bitlen(m / 2) } }
+pub trait LeadingZerosV: Sized { fn leading_zeros_v(self) -> (r: u32); }
+impl LeadingZerosV for u64 {
+    #[verifier::external_body]
+    fn leading_zeros_v(self) -> (r: u32) ensures r == 64 - bitlen(self) { self.leading_zeros() }
+}
+pub proof fn lemma_bitlen_bounds(m: u64) ensures bitlen(m) <= 64, (m == 0) == (bitlen(m) == 0), m >= 16 ==> bitlen(m) >= 5
+    decreases m
+{
+    if m != 0 {
+        lemma_bitlen_bounds(m / 2);
+        // m < 2^64  =>  bitlen(m) <= 64: by induction on the bound  m < 2^k ==> bitlen(m) <= k
+        assert(pow2n(64) == 0x1_0000_0000_0000_0000) by (compute);
+        lemma_bitlen_le(m, 64);
+        if m >= 16 { reveal_with_fuel(bitlen, 6); }
+    }
+}
+pub open spec fn pow2n(k: nat) -> nat decreases k { if k == 0 { 1 } else { 2 * pow2n((k - 1) as nat) } }
+pub proof fn lemma_bitlen_le(m: u64, k: nat) requires (m as nat) < pow2n(k) ensures bitlen(m) <= k decreases k
+{
+    if m != 0 {
+        if k == 0 { } else { lemma_bitlen_le(m / 2, (k - 1) as nat); }
+    }
+}
+
+// T3: i32/i64::unsigned_abs
+pub open spec fn abs_int(x: int) -> nat { if x < 0 { (-x) as nat } else { x as nat } }
+pub assume_specification [i32::unsigned_abs] (x: i32) -> (r: u32) ensures r == abs_int(x as int);
+pub assume_specification [i64::unsigned_abs] (x: i64) -> (r: u64) ensures r == abs_int(x as int);
+
 // D11: `seed.iter().all(|&x| x == 0)` (closure patterns are outside the dialect); cross-checked by Kani on the real code (C08)
 pub open spec fn all_zero(b: Seq<u8>) -> bool { forall |i: int| 0 <= i < b.len() ==> b[i] == 0 }
 #[verifier::external_body]
